@@ -19,7 +19,8 @@
    Text-format leniencies of protoc inside message literals:
    - L1 for float and double fields the words inf, infinity and nan are recognised in any letter case (the project's
         parser tests document this: success_inf_nan_in_message_literal).  The specification has it (ci = true);
-        ci = false is the variant without it and only serves to attribute a disagreement to this rule.
+        ci = false is the variant without it and only serves to attribute a disagreement to this rule
+        (the code had ci = false before bb1a10d1).
    - L2 NOT transcribed: protoc's text format also takes the integers 0 and 1 for bool fields.  Nothing in the
         project documents it; here the specification follows the implementation (an integer is rejected).
    Everything else follows protoc.  Definitions only. *)
@@ -53,24 +54,7 @@ Definition true_words (inlit : bool) : list string :=
 Definition false_words (inlit : bool) : list string :=
   if inlit then ["f"; "false"; "False"]%string else ["false"]%string.
 
-(* ASCII lower case *)
-Definition lower_ascii (a : ascii) : ascii :=
-  let n := N_of_ascii a in
-  if (N.leb 65 n && N.leb n 90)%bool then ascii_of_N (n + 32) else a.
-Fixpoint lower (s : string) : string :=
-  match s with
-  | EmptyString => EmptyString
-  | String a r => String (lower_ascii a) (lower r)
-  end.
-(* the special float words; ci: case-insensitive and with infinity, inside message literals (L1) *)
-Definition float_word (ci inlit : bool) (id : string) : option fl :=
-  if ci && inlit then
-    (let w := lower id in
-     if String.eqb w "inf" || String.eqb w "infinity" then Some (FInf false)
-     else if String.eqb w "nan" then Some FNaN else None)
-  else
-    (if String.eqb id "inf" then Some (FInf false) else if String.eqb id "nan" then Some FNaN else None).
-
+(* the special float words: float_word of the model file with ci = true is protoc's reading (L1) *)
 Definition spec_float (ci : bool) (single : bool) (v : oval) (inlit : bool) : res sval :=
   let rnd m e := if single then to_f32 m e else to_f64 m e in
   match v with
@@ -148,14 +132,15 @@ Definition spec_values_with (svf : field -> oval -> res val) (fld : field) (v : 
   | _ => match svf fld v with Ok x => Ok [x] | Err e => Err e end
   end.
 
-(* storing them into a message through reflection (the text-format parser) *)
-Definition spec_store (fields : list field) (fld : field) (vs : list val) (m : mval) : res mval :=
+(* storing them into a message: through reflection inside a literal (the text-format parser asks HasField),
+   outside by what ExamineIfOptionIsSet finds on the wire *)
+Definition spec_store (inlit : bool) (fields : list field) (fld : field) (vs : list val) (m : mval) : res mval :=
   if frep fld then Ok (fold_left (fun m x => mappend (fnum fld) x m) vs m)
   else
     match vs with
     | [x] =>
       if oneof_conflict fields fld m then Err EOneof
-      else if has fld m then Err EAlreadySet
+      else if (if inlit then has fld m else present (fnum fld) m) then Err EAlreadySet
       else Ok (mset (fnum fld) x m)
     | _ => Err EUnmodelled
     end.
@@ -170,16 +155,8 @@ Definition spec_lit_field (md : nat) (n : lname) : res field :=
     end
   end.
 
-(* The parsed literal is handed on in serialised form: a field without presence that holds its zero value is not
-   on the wire (so a later option statement for it does not find it set). *)
-Definition implicit_zero (fields : list field) (n : N) (v : val) : bool :=
-  match find (fun f => N.eqb (fnum f) n) fields with
-  | Some f => fimplicit f && is_zero_val v
-  | None => false
-  end.
-Definition on_wire (fields : list field) (m : mval) : mval :=
-  filter (fun p => negb (implicit_zero fields (fst p) (snd p))) m.
-
+(* The parsed literal is handed on in serialised form (on_wire): a field without presence that holds its zero
+   value is not on the wire, so a later option statement for it does not find it set. *)
 (* a message literal is parsed like text format: field by field, in order, the first problem rejects it *)
 Definition spec_lit_loop (sv : field -> oval -> res val) (md : nat) : list (lname * oval) -> mval -> res val :=
   fix lit (fs : list (lname * oval)) (m : mval) {struct fs} : res val :=
@@ -194,7 +171,7 @@ Definition spec_lit_loop (sv : field -> oval -> res val) (md : nat) : list (lnam
           match spec_values_with sv f fv with
           | Err x => Err x
           | Ok vs =>
-            match spec_store (msg_fields sch md) f vs m with
+            match spec_store true (msg_fields sch md) f vs m with
             | Err x => Err x
             | Ok m' => lit r m'
             end
@@ -319,17 +296,12 @@ Definition spec_chk_gen (ci : bool) (c : opt_case) : bool :=
   end.
 Definition spec_chk : opt_case -> bool := spec_chk_gen true.
 
-(* an identifier is plain when it is not a letter-case variant of inf / infinity / nan other than inf and nan *)
-Definition plain_word (id : string) : bool :=
-  let w := lower id in
-  negb (String.eqb w "inf" || String.eqb w "infinity" || String.eqb w "nan") || String.eqb id "inf" || String.eqb id "nan".
 (* guard on the values of statements, at every depth: the integer literals are what the lexer produces (a negative
-   one fits int64, a non-negative one uint64) and the identifiers are plain *)
+   one fits int64, a non-negative one uint64) *)
 Fixpoint lexable_b (v : oval) : bool :=
   match v with
   | OInt z => (- 2 ^ 63 <=? z) && (z <=? 2 ^ 63 - 1)
   | OUint n => (0 <=? n) && (n <=? 2 ^ 64 - 1)
-  | OIdent id => plain_word id
   | OMsg fs => forallb (fun p => lexable_b (snd p)) fs
   | OList es => forallb lexable_b es
   | _ => true
